@@ -450,10 +450,10 @@ package plugin
 //@   pred Sv(x) := D0[x] || (P0 != nil && x == pv0)
 //@   at call sort.Reverse#2 assert forall x :: rdom1[x] ==> Sv(x)   [C02.fold]
 //@   at call sort.Reverse#2 assert forall x :: Sv(x) ==> rdom1[x]   [C02.fold]
-//@   at return#2 assert Hset[result0] && rdom1[result0]   [C02.max]
-//@   at return#2 assert forall y :: rdom1[y] && Hset[y] ==> y <= result0   [C02.max]
-//@   at return#1 assert forall y :: rdom1[y] ==> !Hset[y]   [C02.min]
-//@   at return#1 assert (exists z :: rdom1[z]) ==> rdom1[result0] && (forall y :: rdom1[y] ==> result0 <= y)   [C02.min]
+//@   at return#1 assert Hset[result0] && rdom1[result0]   [C02.max]
+//@   at return#1 assert forall y :: rdom1[y] && Hset[y] ==> y <= result0   [C02.max]
+//@   at return#2 assert forall y :: rdom1[y] ==> !Hset[y]   [C02.min]
+//@   at return#2 assert (exists z :: rdom1[z]) ==> rdom1[result0] && (forall y :: rdom1[y] ==> result0 <= y)   [C02.min]
 //@   ensures (exists x :: Sv(x) && Hc(vs, x)) ==> Sv(result0) && Hc(vs, result0) && (forall y :: Sv(y) && Hc(vs, y) ==> y <= result0)   [C02.max]
 //@   ensures !(exists x :: Sv(x) && Hc(vs, x)) && (exists z :: Sv(z)) ==> Sv(result0) && (forall y :: Sv(y) ==> result0 <= y)   [C02.min]
 //@   ensures !(exists x :: Sv(x)) ==> result0 == pv0 && result2 == P0 && result1 == "netrpc"   [C02.none]
@@ -1250,8 +1250,8 @@ package plugin
 //@   immutable Context, ReattachConfigCh, CloseCh, SyncStdio   [C15.serve]
 
 //@ func Serve
-//@   dead return#2 the deferred os.Exit(1) ends the process before the function returns (no magic cookie configured)
-//@   dead return#3 the deferred os.Exit(1) ends the process before the function returns (wrong cookie)
+//@   dead return#1 the deferred os.Exit(1) ends the process before the function returns (no magic cookie configured)
+//@   dead return#2 the deferred os.Exit(1) ends the process before the function returns (wrong cookie)
 //@   nopanic [C16.total] [C15.total]
 //@   may_panic
 //@   stdout_writer [C16.frame]
